@@ -555,11 +555,10 @@ def tearfree_graft(ctx):
   if not ok:
     return
   cmpr = Comparer()
-  sc = ev.closure_env(fi)
-  st = ev.lookup('state', sc)
-  start = ev.lookup('start_preconditioning_step', sc)
-  exp = spec_term(ev, 'state.count >= start', {'state': st, 'start': start})
-  ctx.ob('C04.K5', fi.short, 'warm-up comparator', cmpr.same(sa[1], exp) and path_str(start) is not None and 'start_preconditioning_step' in path_str(start),
+  from ..lib import cmp_oriented
+  oc = cmp_oriented(strip_casts(sa[1]), lambda t: (path_str(strip_casts(t)) or '').endswith('options.start_preconditioning_step'))
+  ok = oc is not None and oc[0] == '>=' and path_str(strip_casts(oc[1])) == 'state.count'
+  ctx.ob('C04.K5', fi.short, 'warm-up comparator', ok,
          f'warm-up switch must be state.count >= options.start_preconditioning_step; got `{cmpr.fmt(sa[1])}`', ctx.loc(fi),
          sample='state.count >= start_preconditioning_step')
   t_dep, f_dep = dep_names(sa[2]), dep_names(sa[3])
